@@ -610,7 +610,8 @@ func (o *Char) UnmarshalBinary(data []byte) error {
 func (o Float) MarshalBinary() ([]byte, error) {
 	buf := make([]byte, 2+binary.MaxVarintLen64)
 	buf[0] = binFloatV1
-	if o == 0 {
+	// -0.0 == 0 but it is a different value, compare bits
+	if math.Float64bits(float64(o)) == 0 {
 		buf[1] = 0
 		return buf[:2], nil
 	}
